@@ -5,6 +5,8 @@
 -/
 import NR.Basic
 import NR.TimeDep
+import NR.Emit
+import NR.SpecDriver
 namespace NR.Driver
 open NR
 
@@ -14,8 +16,18 @@ structure TdState where
   pending : List (Rat × Rat × Nat) := []
 deriving Inhabited
 
+structure EmitState where
+  s0     : Rat := 0
+  starts : List Rat := []
+  recv   : List Rat := []       -- reversed
+  evs    : List Emit.Ev := []   -- reversed
+deriving Inhabited
+
 structure State where
-  td : TdState := {}
+  td   : TdState := {}
+  sb   : SpecDriver.Builder := {}
+  inst : Option Spec.Inst := none
+  em   : EmitState := {}
 deriving Inhabited
 
 def dursFn (l : List Rat) (i : Nat) : Rat := l.getD i 0
@@ -52,9 +64,52 @@ def stepTd (st : TdState) (ws : List String) : TdState × String :=
     | some c => (st, "td wf " ++ toString (decide (TimeDep.WF c)))
   | _ => (st, "bad-op")
 
+def showRats (l : List Rat) : String := showCsv (l.map showRat)
+
+/-- `emit …`: the aggregator (C06). `start s0 starts…`, `recv x`, `end` prints what is delivered. -/
+def stepEmit (st : EmitState) (ws : List String) : EmitState × String :=
+  match ws with
+  | "start" :: s0 :: rest =>
+    match parseRat? s0, parseRats? rest with
+    | some s0, some l => ({ s0 := s0, starts := l, recv := [], evs := [] }, "emit start")
+    | _, _ => (st, "bad-op")
+  | ["recv", x] =>
+    match parseRat? x with
+    | some x => ({ st with recv := x :: st.recv }, "emit recv")
+    | none => (st, "bad-op")
+  | ["end"] => (st, "emit end " ++ showRats (Emit.channel st.s0 st.starts st.recv.reverse))
+  | ["op", w, ci] =>
+    match parseRat? w with
+    | some w => ({ st with evs := .op w (ci = "1") :: st.evs }, "emit op")
+    | none => (st, "bad-op")
+  | ["reset", r] =>
+    match parseRat? r with
+    | some r => ({ st with evs := .reset r :: st.evs }, "emit reset")
+    | none => (st, "bad-op")
+  | ["send"] =>
+    (st, "emit send " ++ showRats (Emit.schannel st.s0 st.evs.reverse) ++ " best " ++
+      showRat (Emit.sfinalBest st.s0 st.evs.reverse))
+  | _ => (st, "bad-op")
+
 def step (st : State) (line : String) : State × String :=
   match words line with
   | "td" :: ws => let (t, o) := stepTd st.td ws; ({ st with td := t }, o)
+  | "emit" :: ws => let (t, o) := stepEmit st.em ws; ({ st with em := t }, o)
+  | "inst" :: ws =>
+    let sb := if ws.head? = some "begin" then {} else st.sb
+    match SpecDriver.stepInst sb ws with
+    | .ok b =>
+      if ws = ["end"] then ({ st with sb := b, inst := some b.inst }, "inst")
+      else ({ st with sb := b, inst := if ws.head? = some "begin" then none else st.inst }, "inst")
+    | .error e => ({ st with inst := none }, "inst-error " ++ e)
+  | "obs" :: ws =>
+    match st.inst, SpecDriver.parseObs ws with
+    | some inst, some o =>
+      match SpecDriver.verdict inst o with
+      | [] => (st, "obs ok")
+      | l => (st, "obs " ++ " ".intercalate l)
+    | none, _ => (st, "obs no-instance")
+    | _, none => (st, "bad-op")
   | [] => (st, "")
   | _ => (st, "bad-op")
 
